@@ -397,4 +397,13 @@ theorem add_nan_unpacked (spec : Format) (hE : 2 ≤ spec.exponentBits) (ba bx :
   · have := isNaN_le_false _ _ (le_repack spec hE _ _ (unpack_inRange spec hE ba) hc hle)
     rw [this] at hs; cases hs
 
+/-- results of `round` are canonical. -/
+theorem round_canon (spec : Format) (s : Sign) (M : Nat) (hM : M ≠ 0) (e0 : Int) :
+    Canon spec (round spec s M e0) := by
+  obtain ⟨q, _, _, _, h4⟩ := round_cases spec s M hM e0
+  rcases h4 with ⟨_, hz⟩ | ⟨_, _, hcan, hfin⟩ | ⟨_, hcan, hfin⟩
+  · rw [hz]; trivial
+  · exact hfin.canon hcan
+  · exact hfin.canon hcan
+
 end Rosu.FMR
